@@ -15,7 +15,7 @@ import hashlib
 from . import real
 from .watchdog import RunTimeout
 
-SOURCE_KINDS = ("bytes", "bytearray", "list", "tuple", "memoryview", "array", "iter", "gen", "counting")
+SOURCE_KINDS = ("bytes", "bytearray", "list", "tuple", "memoryview", "array", "iter", "gen", "counting", "byteobjs")
 
 
 class CountingSource:
@@ -104,6 +104,34 @@ def make_source(kind, data, chunks=None, hook=None):
     if kind == "counting":
         src = CountingSource(data, hook)
         return src, src
+    if kind == "byteobjs":
+        # the decoder's own BYTE values (a buffer taken from one decode and fed into another): items with __index__ only
+        from tpmstream.spec.structures.base_types import BYTE
+        return [BYTE(b) for b in data], None
+    if kind == "realfile":
+        # a real buffered file that has an I/O history when it is handed over: sniffed with peek() or read()+seek(0)
+        import os
+        import tempfile
+        from tpmstream.io import bytes_from_files
+        fd, path = tempfile.mkstemp(prefix="verif-src-")
+        try:
+            os.write(fd, data)
+        finally:
+            os.close(fd)
+        f = open(path, "rb")
+        os.unlink(path)
+        how = (chunks or [0])[0] % 3
+        if how == 0:
+            f.peek(2)
+        elif how == 1:
+            f.read(2)
+            f.seek(0)
+        def closing(gen, fobj):
+            try:
+                yield from gen
+            finally:
+                fobj.close()
+        return closing(bytes_from_files([f]), f), None
     if kind == "growing":
         # a live source: a bytearray the producer keeps appending to while the decoder is running.  The simulator keeps it
         # a comfortable margin ahead of what the emitted fields account for (see Task._grow); a decoder that pulls byte by
@@ -245,7 +273,14 @@ class Task:
         if isinstance(self.counter, Growing):
             self._grow()
         try:
-            o = next(self.top)
+            if self.spec.get("in_except"):
+                # the caller drives the decode from inside an exception handler (strict first, warn mode as a fallback)
+                try:
+                    raise LookupError("caller is handling this")
+                except LookupError:
+                    o = next(self.top)
+            else:
+                o = next(self.top)
             if self.top is not self.gen:
                 self.out.append(o)
             return True
